@@ -29,10 +29,15 @@ parameter) is evaluated entry by entry as it stands: in the code such an
 expression is reference-free (the compiler rejects references inside untyped
 maps) and `resolve` returns it unchanged (`!binding.HasRef() && !binding.HasSplit()`).
 
-This file: the static phase for PLAIN call graphs (no map call, no `disabled`
-modifier: there `mapped`/`Forks`/`split` are empty and `Disable` is nil, so
-`resolveInputs` is `Bindings.resolve` and nothing else), the run-time phase for
-every `RExp` node.  The refinement theorem is in Proofs/ResolverStatic*.lean.
+This file: the static phase for call graphs without `disabled` modifier whose map
+calls are calls of STAGES over collections of statically known size (array /
+typed-map literals after resolution; plain calls: `mapped`/`Forks`/`split` are
+empty and `Disable` is nil, so `resolveInputs` is `Bindings.resolve` and nothing
+else; such a map call: split bindings become `split` nodes over the resolved
+literal, the node forks over the call, its outputs are the unrolled merge — an
+array / typed map of the node's reference read in each fork), the run-time
+phase for every `RExp` node.  Not covered by the static phase: mapped
+pipelines, split sources of run-time size (`merge` nodes stay), nested map calls.  The refinement theorem is in Proofs/ResolverStatic*.lean.
 -/
 import Martian.Dataflow
 import Martian.Resolver
@@ -139,7 +144,67 @@ structure SNode where
   path : List String
   callee : String
   inputs : RBMap
+  /-- the mapped calls this node forks over (outermost first) with their index sets
+  (`CallGraphStage.Forks` + the statically known size of each) -/
+  forks : List (String × List Idx) := []
 deriving Inhabited
+
+/-! ### map calls over statically sized collections -/
+
+/-- the type of the collection a split parameter of type `t` is an element of -/
+def liftSplitTy (isMap : Bool) (t : Ty) : Ty :=
+  if isMap then ⟨t.base, t.arrDim + 1, 0⟩ else { t with arrDim := t.arrDim + 1 }
+
+/-- index set of a split source of statically known size (an array / typed-map literal after
+resolution): `KnownLength` / `ArrayLength` / `Keys` of the `MapCallSource` -/
+def staticIndices : RExp → Option (Bool × List Idx)
+  | .arr xs => some (false, (List.range xs.length).map .i)
+  | .map kvs => some (true, kvs.map fun kv => .k kv.1)
+  | _ => none
+
+def isMapLit : RExp → Bool
+  | .map _ => true
+  | _ => false
+
+/-- `Bindings.resolve` of a MAP call: a `split` binding resolves to `SplitExp{Call, Value}` with the
+value resolved and filtered at the collection type (`SplitExp.resolveRefs`, `SplitExp.filter`) -/
+def resolveBindsM (st : StructTable) (self sib : RBMap) (ins : List Param) (c : Call) : RBMap :=
+  ins.map fun p =>
+    (p.name,
+     match c.binds.find? (fun b => b.param == p.name) with
+     | some b =>
+       if b.split then
+         ⟨.split c.id (isMapLit (resolveRefs self sib b.exp))
+            (filterR st (liftSplitTy (isMapLit (resolveRefs self sib b.exp)) p.ty) (resolveRefs self sib b.exp)), p.ty⟩
+       else ⟨filterR st p.ty (resolveRefs self sib b.exp), p.ty⟩
+     | none => ⟨.lit .null, p.ty⟩)
+
+/-- the first parameter of the callee that the call binds with `split` -/
+def splitParam (ins : List Param) (c : Call) : Option Param :=
+  ins.find? fun p =>
+    match c.binds.find? (fun b => b.param == p.name) with
+    | some b => b.split
+    | none => false
+
+/-- the index set of the call: that of its first split input, if statically known
+(`unifyMapSources`: all sources must agree) -/
+def callIndicesR (st : StructTable) (self sib : RBMap) (ins : List Param) (c : Call) :
+    Option (Bool × List Idx) :=
+  match splitParam ins c with
+  | none => none
+  | some p =>
+    match c.binds.find? (fun b => b.param == p.name) with
+    | some b =>
+      staticIndices (filterR st (liftSplitTy (isMapLit (resolveRefs self sib b.exp)) p.ty)
+        (resolveRefs self sib b.exp))
+    | none => none
+
+/-- the resolved outputs of a call mapped over a collection of known size: the merge over the call
+unrolled (`MergeExp.BindingPath` with `KnownLength`): one copy of the callee's outputs per
+fork, each read in that fork -/
+def unrolledOutputs (c : Call) (ixs : Bool × List Idx) (out : RExp) : RB :=
+  if ixs.1 then ⟨.map (ixs.2.map fun ix => (ix.keyText, .fork c.id ix out)), ⟨c.callee, 1, 0⟩⟩
+  else ⟨.arr (ixs.2.map fun ix => .fork c.id ix out), ⟨c.callee, 0, 1⟩⟩
 
 /-- the children of a pipeline node, in call order: `childMap` grows by each
 child's resolved outputs (`CallGraphPipeline.resolve`) -/
@@ -148,8 +213,15 @@ def staticCalls (st : StructTable) (insOf : String → List Param)
     List Call → RBMap → List SNode → RBMap × List SNode
   | [], sib, acc => (sib, acc)
   | c :: cs, sib, acc =>
-    let r := node c.callee (path ++ [c.id]) (resolveBinds st self sib (insOf c.callee) c)
-    staticCalls st insOf node path self cs (sib ++ [(c.id, r.1)]) (acc ++ r.2)
+    if c.mapped then
+      let cins := resolveBindsM st self sib (insOf c.callee) c
+      let r := node c.callee (path ++ [c.id]) cins
+      let ixs := (callIndicesR st self sib (insOf c.callee) c).getD (false, [])
+      staticCalls st insOf node path self cs (sib ++ [(c.id, unrolledOutputs c ixs r.1.exp)])
+        (acc ++ r.2.map fun n => { n with forks := (c.id, ixs.2) :: n.forks })
+    else
+      let r := node c.callee (path ++ [c.id]) (resolveBinds st self sib (insOf c.callee) c)
+      staticCalls st insOf node path self cs (sib ++ [(c.id, r.1)]) (acc ++ r.2)
 
 /-- `makeCallGraphNodes` + `resolve` of one node: its resolved outputs and the stage
 nodes below it.  A stage's outputs are the reference to the node itself
@@ -161,7 +233,7 @@ def staticCallable (P : Program) (nm : List String → String) :
   | fuel+1, callee, path, ins =>
     match P.callables.lookup callee with
     | none => (⟨.lit .null, badTy⟩, [])
-    | some (.stage _ _) => (⟨.ref (nm path) ⟨callee, 0, 0⟩ [], ⟨callee, 0, 0⟩⟩, [⟨path, callee, ins⟩])
+    | some (.stage _ _) => (⟨.ref (nm path) ⟨callee, 0, 0⟩ [], ⟨callee, 0, 0⟩⟩, [⟨path, callee, ins, []⟩])
     | some (.pipeline _ outs calls ret) =>
       let r := staticCalls P.table P.insOf (staticCallable P nm fuel) path ins calls [] []
       (⟨.struct (outs.map fun p =>
@@ -207,6 +279,7 @@ def evalRT (st : StructTable) (nf : Nat) (ρ : Store) : ForkAssign → Ty → RE
     .obj ((ρ.idx c f).map fun ix => (ix.keyText, evalRT st nf ρ (fset f c ix) ⟨t.base, 0, t.mapDim - 1⟩ e))
   | f, t, .disabled d v =>
     if isTrue (evalRT st nf ρ f ⟨"bool", 0, 0⟩ d) then .null else evalRT st nf ρ f t v
+  | f, t, .fork c ix e => evalRT st nf ρ (fset f c ix) t e
 def evalRTList (st : StructTable) (nf : Nat) (ρ : Store) : ForkAssign → Ty → List RExp → List J
   | _, _, [] => []
   | f, t, e :: es => evalRT st nf ρ f t e :: evalRTList st nf ρ f t es
@@ -239,6 +312,28 @@ def twoPhase (P : Program) (nm : List String → String) (ρ : Store) : J × Lis
   ((evalRT P.table P.nfuel ρ [] ⟨P.top.callee, 0, 0⟩ (staticProgram P nm).1.exp),
    (staticProgram P nm).2.map (toInst P.table P.nfuel ρ))
 
+/-- the stage instances a node stands for (one per fork) with the argument records the
+run-time phase computes; this model: at most one fork dimension per node -/
+def instsOf (st : StructTable) (nf : Nat) (ρ : Store) (n : SNode) : List Inst :=
+  match n.forks with
+  | [] => [toInst st nf ρ n]
+  | (c, ixs) :: _ => ixs.map fun ix => ⟨⟨n.path, [(c, ix)]⟩, runtimeArgs st nf ρ [(c, ix)] n, false, false⟩
+
+/-- BOTH PHASES with map calls of stages over statically sized collections -/
+def twoPhaseM (P : Program) (nm : List String → String) (ρ : Store) : J × List Inst :=
+  ((evalRT P.table P.nfuel ρ [] ⟨P.top.callee, 0, 0⟩ (staticProgram P nm).1.exp),
+   (staticProgram P nm).2.flatMap (instsOf P.table P.nfuel ρ))
+
+/-- the store a run leaves behind, from the recorded outs `O` and the nodes of the call graph:
+the outs of `node`, read in fork assignment `f`, are those of the fork of the node that `f`
+selects — only the node's own fork dimensions matter (`Node.matchFork`) -/
+def storeOfNodes (nm : List String → String) (nodes : List SNode) (O : Oracle) : Store :=
+  { outs := fun node f =>
+      match nodes.find? (fun n => nm n.path == node) with
+      | some n => (O ⟨n.path, n.forks.map fun d => (d.1, (f.lookup d.1).getD .none)⟩).getD .null
+      | none => .null
+    idx := fun _ _ => [] }
+
 /-! ## the fragment -/
 
 /-- no map call and no `disabled` modifier anywhere -/
@@ -250,5 +345,17 @@ def Callable.plain : Callable → Bool
 
 def Program.plain (P : Program) : Bool :=
   Call.plain P.top && P.callables.all fun c => Callable.plain c.2
+
+/-- no `disabled`; every map call is a call of a stage; the top call is plain -/
+def Program.mapsOfStages (P : Program) : Bool :=
+  Call.plain P.top && P.callables.all fun c =>
+    match c.2 with
+    | .stage _ _ => true
+    | .pipeline _ _ calls _ => calls.all fun c =>
+        c.disabled.isNone &&
+        (Call.plain c ||
+          (c.mapped && match P.callables.lookup c.callee with
+            | some (.stage _ _) => true
+            | _ => false))
 
 end Martian.ResolverStatic
